@@ -472,6 +472,11 @@ def compare_props(R, api, c0, c1, T, kinds, sel_of, exact, ttol=(1e-9, 1e-11), d
                 pa, pb = np.asarray(a.positions, float), np.asarray(b.positions, float)
                 want = pa + [T.dx, T.dy] if shift else pa[::-1]
                 good &= bool(np.allclose(pb, want, rtol=0, atol=POS_TOL if shift else 1e-7))
+                if not shift and hasattr(a, 'w_in') and float(a.theta.value if hasattr(a.theta, 'value') else a.theta) == 0.0:
+                    # an axis-aligned rectangle is transposed by swapping width and height
+                    good &= bool(np.allclose([b.w_in, b.w_out, b.h_in, b.h_out], [a.h_in, a.h_out, a.w_in, a.w_out],
+                                             rtol=1e-8)) and float(val(b.theta)) == 0.0
+                    continue
                 for prm in a._params:
                     if prm == 'positions':
                         continue
@@ -533,6 +538,12 @@ def g_aperture_stats(sc, T, R, grng):
         R.skip('ApertureStats', 'bbox-not-inside-frame', int((~inside).sum()))
         opts = dict(sum_method=grng.choice(['exact', 'center', 'subpixel']), subpixels=grng.choice([3, 5]),
                     sigma_clip=grng.choice([None, None, 3.0]))
+        # ApertureStats masks pixels whose weight is exactly 0; with real-valued positions x + dx is rounded, an
+        # 'exact' annulus weight can come out as 1e-15 instead of 0, the pixel then votes in the sigma clipping and
+        # the clipped set changes discontinuously.  Sigma clipping is therefore exercised only where the
+        # translation is exact (1/8-lattice scenes under shift).
+        if not (sc['dyadic'] and T.kind == 'shift'):
+            opts['sigma_clip'] = None
         lb = grng.choice([None, 'array'])
         local_bkg = None if lb is None else np.array([grng.uniform(1.5, 2.5) for _ in pos])
         kws = dict(sum_method=opts['sum_method'], subpixels=opts['subpixels'],
@@ -825,7 +836,9 @@ def g_source_catalog(sc, T, R, grng):
     rad = 6.0 * np.nan_to_num(val(c0.semimajor_sigma), nan=50.0)
     rhl = np.nan_to_num(val(c0.fluxfrac_radius(0.5)), nan=50.0)
     rad = np.maximum(rad, 3.4 * rhl)
-    kaps = c0.kron_aperture if n > 1 else [c0.kron_aperture]
+    kaps = c0.kron_aperture
+    if not isinstance(kaps, (list, tuple, np.ndarray)):
+        kaps = [kaps]
     for k, ap in enumerate(kaps):
         if ap is None:
             rad[k] = 1e3
@@ -833,7 +846,9 @@ def g_source_catalog(sc, T, R, grng):
             b = ap.bbox
             rad[k] = max(rad[k], xc[k] - b.ixmin, b.ixmax - xc[k], yc[k] - b.iymin, b.iymax - yc[k])
     if opts['localbkg_width'] > 0:
-        bb = c0.bbox if n > 1 else [c0.bbox]
+        bb = c0.bbox
+        if not isinstance(bb, (list, tuple, np.ndarray)):
+            bb = [bb]
         for k, b in enumerate(bb):
             half = 0.75 * max(b.ixmax - b.ixmin, b.iymax - b.iymin) + opts['localbkg_width'] + 2
             cx, cy = 0.5 * (b.ixmin + b.ixmax - 1), 0.5 * (b.iymin + b.iymax - 1)
@@ -947,7 +962,8 @@ def g_model_image(sc, T, R, grng):
     for which in ('Gaussian2D', 'GaussianPSF', 'CircularGaussianPRF'):
         n = grng.randint(3, 7)
         interior_only = grng.random() < 0.5
-        lo = 9 if interior_only else -3
+        # windows: model_shape <= 15, bbox_factor 3 -> <= 2*3*2 sigma, default Gaussian2D bounding box 5.5 sigma
+        lo = (14 if which == 'Gaussian2D' else 9) if interior_only else -3
         xs = np.array([grng.uniform(lo, nx - 1 - lo) for _ in range(n)])
         ys = np.array([grng.uniform(lo, ny - 1 - lo) for _ in range(n)])
         if sc['dyadic']:
@@ -1073,7 +1089,7 @@ def g_centroids(sc, T, R, grng):
             #  no clean relation; centroid_2dg drops masked pixels from the fit)
             g0 = centroid_2dg(st, **mk0)
             g1 = centroid_2dg(ST, mask=pm)
-            rel('centroid_2dg[masked padding]', 'centroid', g1, g0, 1e-4,
+            rel('centroid_2dg[masked padding]', 'centroid', g1, g0, 2e-3,
                 lambda: dict(det, original=js(g0), transformed=js(g1)), shape=st.shape)
         else:
             # library fitters (Levenberg-Marquardt): agreement to the convergence tolerance only
